@@ -1,7 +1,7 @@
 """BlockNtfns family: C11 (each subscriber sees every block event once, in
 order, from its start; slow / cancelling subscribers do not affect others;
 closed after Cancel / Stop)."""
-import json, os, random, shutil, time
+import json, os, random, shutil, sys, time
 from .. import core, family
 
 SPEC = os.path.join(core.VERIF, "specs", "BlockNtfns")
@@ -46,10 +46,14 @@ PROPS = {
 
 CODE_VERSION = json.load(open(os.path.join(SPEC, "code_version.json")))
 
-# replay graph (Eager): real capacity, bursts of 10
+# replay graphs (Eager): real capacity 20, bursts of Scale events
 REPLAY = {
-    "quick": dict(NSubs=2, MaxEvents=2, Cap=20, Scale=10, Eager=True),
-    "thorough": dict(NSubs=2, MaxEvents=5, Cap=20, Scale=10, Eager=True),
+    "quick": [dict(NSubs=2, MaxEvents=2, Cap=20, Scale=10, Eager=True),
+              # one subscriber, 42 events: channel (20) + forwarder (1) + queue buffer (20) + overflow list
+              dict(NSubs=1, MaxEvents=2, Cap=20, Scale=21, Eager=True)],
+    "thorough": [dict(NSubs=2, MaxEvents=3, Cap=20, Scale=10, Eager=True),
+                 dict(NSubs=2, MaxEvents=2, Cap=20, Scale=21, Eager=True),
+                 dict(NSubs=3, MaxEvents=1, Cap=20, Scale=21, Eager=True)],
 }
 # interleaving model (fine-grained): capacity 2, single events
 FINE = {
@@ -116,28 +120,46 @@ def run(prop_id, tier, seed, replay=None):
             extra["interleaving_model"] = {"config": fconsts, "states": fine.distinct,
                                            "states_generated": fine.generated, "depth": fine.depth,
                                            "wall_s": round(fine.wall, 1), "invariants": inv}
-            # 2. replay graph
-            consts = dict(REPLAY[tier]); consts.update(CODE_VERSION)
-            tlc = core.run_tlc([SPEC], "BlockNtfns", consts, workers=1, invariants=["TypeOK", "NoViolation"],
-                               workdir=os.path.join(sc, "tlc"), timeout=3000, heap="12g")
-            if not tlc.ok:
-                raise core.MachineryError("TLC on BlockNtfns (replay graph) failed: %s\n%s" % (
-                    tlc.error, tlc.stdout_tail[-3000:]))
-            g = core.Graph.load(tlc)
-            paths, unreach = core.edge_cover(g, rng)
-            if WALKS[tier]:
-                paths += core.random_walks(g, WALKS[tier], 14, rng)
-            core.write_paths(g, paths, pf)
-            extra["config"] = consts
-            extra["edges_only_reachable_through_model_violation"] = unreach
+            # 2. replay graphs
+            graphs = []
+            for ci, rc_ in enumerate(REPLAY[tier]):
+                consts = dict(rc_); consts.update(CODE_VERSION)
+                t = core.run_tlc([SPEC], "BlockNtfns", consts, workers=1, invariants=["TypeOK", "NoViolation"],
+                                 workdir=os.path.join(sc, "tlc%d" % ci), timeout=3000, heap="12g")
+                if not t.ok:
+                    raise core.MachineryError("TLC on BlockNtfns (replay graph %s) failed: %s\n%s" % (
+                        consts, t.error, t.stdout_tail[-3000:]))
+                gi = core.Graph.load(t)
+                pi, ui = core.edge_cover(gi, rng)
+                if WALKS[tier] and ci == 0:
+                    pi += core.random_walks(gi, WALKS[tier], 14, rng)
+                pfi = os.path.join(sc, "paths%d.ndjson" % ci)
+                core.write_paths(gi, pi, pfi)
+                shutil.rmtree(os.path.join(sc, "tlc%d" % ci), ignore_errors=True)
+                graphs.append(dict(consts=consts, tlc=t, g=gi, paths=pi, unreach=ui, pf=pfi))
+            tlc, g, paths = _Agg([fine] + [x["tlc"] for x in graphs]), _AggGraph([x["g"] for x in graphs]), \
+                [p for x in graphs for p in x["paths"]]
+            extra["replay_graphs"] = [dict(config=x["consts"], states=x["tlc"].distinct, edges=len(x["g"].edges),
+                                           paths=len(x["paths"]), tlc_wall_s=round(x["tlc"].wall, 1),
+                                           edges_only_reachable_through_model_violation=x["unreach"])
+                                      for x in graphs]
+            pfs = [x["pf"] for x in graphs]
+        tp = time.time()
         binary = family.build_overlay_test(PKG, [DRIVER], os.path.join(sc, "blockntfns.test"))
-        observed, log = family.run_driver(binary, "TestVerifBlockNtfnsReplay", pf,
-                                          os.path.join(sc, "obs.ndjson"), sc)
-        dr = family.drift(pf, observed, label=label)
+        observed, dr = [], [0, 0, []]
+        for ci, pfi in enumerate([pf] if replay else pfs):
+            obs_i, log = family.run_driver(binary, "TestVerifBlockNtfnsReplay", pfi,
+                                           os.path.join(sc, "obs%d.ndjson" % ci), sc)
+            d = family.drift(pfi, obs_i, label=label)
+            dr = [dr[0] + d[0], dr[1] + d[1], (dr[2] + d[2])[:5]]
+            for t in obs_i:
+                t["id"] = "g%d-%d" % (ci, t["id"])
+            observed += obs_i
+        dr = tuple(dr)
         free = []
         if not replay:
             fc = FREE[tier]
-            free, flog = family.run_driver(binary, "TestVerifBlockNtfnsFree", pf, os.path.join(sc, "free.ndjson"), sc,
+            free, flog = family.run_driver(binary, "TestVerifBlockNtfnsFree", pfs[0], os.path.join(sc, "free.ndjson"), sc,
                                            env_extra={"VERIF_SEED": str(seed), "VERIF_FREE_RUNS": str(fc["runs"]),
                                                       "VERIF_FREE_MIN_EVENTS": str(fc["min_events"]),
                                                       "VERIF_FREE_MAX_EVENTS": str(fc["max_events"])})
@@ -151,12 +173,30 @@ def run(prop_id, tier, seed, replay=None):
                 "runs_overflowing_41_slots": sum(1 for t in free if overflowed(t)),
                 "quiesced": sum(1 for t in free if t["steps"] and t["steps"][-1]["act"]["op"] == "Quiesce"),
             }
+        extra["phase_wall_s"] = {"model": round(tp - t0, 1), "drivers": round(time.time() - tp, 1)}
+        tj = time.time()
         verdict = judge_all(prop_id, observed + free)
+        extra["phase_wall_s"]["judge"] = round(time.time() - tj, 1)
+        if os.environ.get("VERIF_VERBOSE"):
+            print("phases", extra["phase_wall_s"], file=sys.stderr)
         rc = family.finish(prop_id, tier, seed, t0, tlc, g, paths, observed + free, verdict, dr, extra,
                            ASSUMPTIONS, label=label)
         return rc
     finally:
         shutil.rmtree(sc, ignore_errors=True)
+
+
+class _Agg:
+    def __init__(self, runs):
+        self.generated = sum(r.generated for r in runs)
+        self.distinct = sum(r.distinct for r in runs)
+        self.depth = max(r.depth for r in runs)
+        self.wall = sum(r.wall for r in runs)
+
+
+class _AggGraph:
+    def __init__(self, gs):
+        self.edges = [e for g in gs for e in g.edges]
 
 
 def overflowed(t):
@@ -174,7 +214,7 @@ def overflowed(t):
     return False
 
 
-def judge_all(prop_id, traces, max_lines=120000):
+def judge_all(prop_id, traces, max_lines=60000):
     """ObsCheck in chunks of at most max_lines trace lines (free-running
     traces are long; one JVM per chunk)."""
     known = core.load_known()
@@ -200,4 +240,8 @@ def judge_all(prop_id, traces, max_lines=120000):
         total["n_lines"] += v["n_lines"]
         total["wall"] += v["wall"]
         total["raw"] += v["raw"]
+        if len(total["violations"]) >= 10:
+            # the verdict is in; the remaining chunks would only add examples
+            total["judging_stopped_early"] = True
+            break
     return total
